@@ -91,6 +91,7 @@ const (
 type Datagram struct {
 	Bytes      []byte
 	FromPid    uint32 // netlink port id of the sender (0 = kernel)
+	Groups     uint32 // multicast group mask of the source address
 	NonNetlink bool   // source address is not AF_NETLINK
 	Req        int    // ledger index of the request it answers (-1 none)
 	Kind       int
